@@ -77,7 +77,8 @@ def render(lexemes: list[str], sep: str) -> str:
     return out
 
 
-def check_front_end(repo: Repo, where: str, thorough: bool = False) -> tuple[int, list[tuple[str, str]]]:
+def check_front_end(repo: Repo, where: str, thorough: bool = False, only=None) -> tuple[int, list[tuple[str, str]]]:  # noqa: ANN001
+    """``only``: a predicate on token lists; just the matching expression cases are evaluated (C12 takes the literal ones)."""
     cm = program(repo, where)
     any_rule = cm.new("BuiltInRule", "ANY", cm.new("String", "<any>"), 2)
     builtins = {"ANY": any_rule}
@@ -92,6 +93,8 @@ def check_front_end(repo: Repo, where: str, thorough: bool = False) -> tuple[int
         return res[0] if isinstance(res, tuple) else res
 
     for desc, toks, want in tokparse.cases():
+        if only is not None and not only(toks):
+            continue
         lexs = ["r", "=", "{"] + [lexeme(k, v) for k, v in toks] + ["}"]
         for sname, sep in seps.items():
             n += 1
@@ -109,6 +112,25 @@ def check_front_end(repo: Repo, where: str, thorough: bool = False) -> tuple[int
             got = tokparse.tree(r.__dict__.get("expression")) if isinstance(r, Obj) else None
             if got != want:
                 bad.append((f"the rule built is not the one the text denotes ({sname} between the tokens)", f"{text!r} builds {got}, denoted {want}"))
+    if only is not None:
+        return n, bad
+    # a keyword is a whole word: a longer identifier that begins with one is an identifier (identifier = @{ !"PUSH" ~
+    # ("_" | alpha) ~ ("_" | alpha_num)* } excludes the PUSH prefix only), and the longer keyword wins over the shorter
+    for kw in ("POP", "POP_ALL", "PEEK", "PEEK_ALL", "DROP", "ANY"):
+        for suffix in ("x", "_", "1", "_ALLx", "S"):
+            n += 1
+            word = kw + suffix
+            text = f"r = {{ {word} ~ a }}"
+            try:
+                rules = front(text)
+            except ModelRaise as err:
+                bad.append(("an identifier that begins with a keyword is refused", f"{text!r}: {err}"))
+                continue
+            r = rules.get("r") if isinstance(rules, dict) else None
+            got = tokparse.tree(r.__dict__.get("expression")) if isinstance(r, Obj) else None
+            want = ("Sequence", ("Identifier", word), ("Identifier", "a"))
+            if got != want:
+                bad.append(("a keyword claims the first letters of a longer identifier", f"{text!r} builds {got}, denoted {want}"))
     # rule headers, documentation lines, several rules
     for sym in ("", "_", "@", "$", "!"):
         for sname, sep in seps.items():
